@@ -13,9 +13,12 @@ RTOL = 1e-8
 LINEAR = [None, 'runonce', 'direct', 'direct_asm', 'krylov', 'lbgs']
 
 
-def rand_cfg(rng):
+def rand_cfg(rng, cyclic=False):
     cfg = {'mode': rng.choice(['fwd', 'rev', 'auto']),
-           'linear': rng.choice(LINEAR), 'sub_linear': rng.choice([None, None, 'direct', 'lbgs']),
+           'linear': rng.choice(['direct', 'direct_asm', 'krylov', 'lbgs']) if cyclic
+           else rng.choice(LINEAR),
+           'nonlinear': rng.choice(['nlbgs', 'newton', 'nlbgs', 'nlbjac']) if cyclic else None,
+           'sub_linear': rng.choice([None, None, 'direct', 'lbgs']),
            'jac': rng.choice([None, None, 'dense', 'csc']),
            'partials': rng.choice([None, None, 'dense', 'sparse', 'cs', 'matfree']),
            'return_format': rng.choice(['array', 'flat_dict', 'dict']),
@@ -40,7 +43,8 @@ class C01(Property):
             "return format, driver_scaling); real Problem.compute_totals compared with the Lean "
             "driver's exact rational Jacobian and with an exact dual-number oracle. Non-trivial: the "
             "exact Jacobian has a nonzero entry; distinct by (seed, configuration).")
-    assumptions = ["comparison tolerance 1e-8 relative to max(1,|J|) (double rounding through solves)",
+    assumptions = ["comparison tolerance 1e-8 relative to max(1,|J|) (double rounding through solves); "
+                   "1e-6 when an iterative linear or nonlinear solver is part of the configuration",
                    "models are polynomial with rational data so that the exact Jacobian is computable"]
     trusted_extra = ["NumPy indexing for src_indices and desvar/response indices",
                      "scipy/LAPACK linear solves inside OpenMDAO's solvers (results only compared)"]
@@ -60,9 +64,12 @@ class C01(Property):
     def cases(self, rng, tier):
         n = 40 if tier == 'quick' else 1500
         for _ in range(n):
+            cyc = rng.random() < 0.4
             yield {'gen_seed': rng.randrange(10 ** 9),
-                   'opts': {'safe_indices': True, 'scaling': rng.random() < 0.3},
-                   'cfg': rand_cfg(rng)}
+                   'opts': {'safe_indices': rng.random() < 0.6, 'scaling': rng.random() < 0.4,
+                            'array_scaling': True, 'implicit': rng.random() < 0.5,
+                            'cycles': 'converging' if cyc else False},
+                   'cfg': rand_cfg(rng, cyc)}
 
     def _md(self, case):
         rng = random.Random(case['gen_seed'])
@@ -82,6 +89,10 @@ class C01(Property):
                 p.setup(mode=cfg['mode'], force_alloc_complex=True)
                 gm.set_auto_ivc_values(p, md)
                 p.run_model()
+                outs, ins = gm.exact_state(md)
+                res['converged_to_exact'] = all(
+                    np.allclose(np.asarray(p.get_val(k)).ravel(), [float(x) for x in v],
+                                rtol=1e-9, atol=1e-10) for k, v in outs.items())
                 J = p.compute_totals(return_format=cfg['return_format'],
                                      driver_scaling=cfg['driver_scaling'])
                 ofs = [v['name'] for v in voi['responses']]
@@ -123,14 +134,22 @@ class C01(Property):
             cs.extend([tot if case['cfg']['driver_scaling'] else fac] * len(pos))
         return [[Jmodel[i][l] * rs[i] / cs[l] for l in range(len(cs))] for i in range(len(rs))]
 
-    def _diff(self, got, exp):
+    def _tol(self, case):
+        cfg = case['cfg']
+        iterative = {'lbgs', 'lbjac', 'krylov'}
+        if cfg.get('linear') in iterative or cfg.get('sub_linear') in iterative \
+                or cfg.get('nonlinear'):
+            return 1e-6      # iterative solves stop at their own tolerance
+        return RTOL
+
+    def _diff(self, got, exp, tol=RTOL):
         if len(got) != len(exp) or (exp and len(got[0]) != len(exp[0])):
             return 'shape %sx%s vs expected %sx%s' % (len(got), len(got[0]) if got else 0,
                                                     len(exp), len(exp[0]) if exp else 0)
         scale = max([1.0] + [abs(float(x)) for r in exp for x in r])
         for i, (gr, er) in enumerate(zip(got, exp)):
             for l, (g, e) in enumerate(zip(gr, er)):
-                if not abs(g - float(e)) <= RTOL * scale:
+                if not abs(g - float(e)) <= tol * scale:
                     return 'entry (%d,%d): got %r expected %r' % (i, l, g, float(e))
         return None
 
@@ -139,8 +158,14 @@ class C01(Property):
         if 'error' in impl:
             return {'what': 'setup/run_model/compute_totals raised %s' % impl['error'],
                     'msg': impl.get('msg')}
-        exp = self._expected(case, gm.exact_totals(md, voi))
-        d = self._diff(impl['J'], exp)
+        if not impl.get('converged_to_exact'):
+            if md.get('cyclic'):
+                # the property is conditional on convergence; an iterative nonlinear solve that
+                # stopped elsewhere is not a C01 matter (C09 covers the solver contract)
+                return None
+            return {'what': 'acyclic model: outputs after run_model differ from the exact state'}
+        exp = self._expected(case, gm.exact_totals_linsolve(md, voi))
+        d = self._diff(impl['J'], exp, self._tol(case))
         if d is not None:
             return {'what': 'compute_totals differs from the exact derivative', 'detail': d,
                     'expected': [[float(x) for x in r] for r in exp], 'got': impl['J']}
@@ -155,13 +180,18 @@ class C01(Property):
 
     def nontrivial(self, case, impl):
         md, voi = self._md(case)
-        return any(x != 0 for r in gm.exact_totals(md, voi) for x in r)
+        return bool(impl.get('converged_to_exact')) and \
+            any(x != 0 for r in gm.exact_totals_linsolve(md, voi) for x in r)
 
     def bucket(self, case, impl):
         cfg = case['cfg']
         md, voi = self._md(case)
-        b = ['impl_error' if 'error' in impl else 'impl_ok']
-        for k in ('mode', 'linear', 'sub_linear', 'jac', 'partials', 'return_format',
+        b = ['impl_error' if 'error' in impl else 'impl_ok',
+             'cyclic' if md.get('cyclic') else 'acyclic',
+             'converged' if impl.get('converged_to_exact') else 'not_converged_to_exact']
+        if any(c['kind'] == 'implicit' for c in md['comps']):
+            b.append('has_implicit_comp')
+        for k in ('mode', 'linear', 'nonlinear', 'sub_linear', 'jac', 'partials', 'return_format',
                   'driver_scaling'):
             b.append('%s=%s' % (k, cfg[k]))
         for v in voi['desvars'] + voi['responses']:
@@ -185,11 +215,13 @@ class C01(Property):
                 a.get('ok'), a.get('resid_zero'), a.get('fwd_eq_rev')))
         JL = [[unrat(x) for x in r] for r in a['J']]
         # the two exact computations (Lean linearised solve, Python dual numbers) must coincide
-        if JL != gm.exact_totals(md, voi):
+        if JL != gm.exact_totals_linsolve(md, voi):
             raise Infra('Lean exact Jacobian differs from the dual-number oracle')
         if 'error' in impl:
             return 'implementation raised %s; the model returns a Jacobian' % impl['error']
-        d = self._diff(impl['J'], self._expected(case, JL))
+        if not impl.get('converged_to_exact'):
+            return None
+        d = self._diff(impl['J'], self._expected(case, JL), self._tol(case))
         return None if d is None else 'compute_totals vs model: ' + d
 
 
